@@ -49,6 +49,8 @@ inductive Op where
   | reset
   | destroy                   -- delete the interpreter, create a new one for the same document
   | getState
+  | inject (ev : String)     -- an internal event from outside a macrostep: a delayed `<send target="#_internal">`
+                            -- that fires, the error event of a delayed delivery that fails (`enqueueInternal`)
   deriving Repr, DecidableEq, Inhabited
 
 def engineStep (eng : Engine) (c : Chart) (e : EState) : EState × Ret :=
@@ -89,6 +91,7 @@ def applyApi (eng : Engine) (c : Chart) (a : Api) : Op → Api
     -- `markAsCancelled()` + the empty event that unblocks a waiting `step()`
     { a with e := { a.e with cancelled := true, x := (a.e.x.emit (.note "cancel")).sendExt "" } }
   | .getState => { a with e := { a.e with x := a.e.x.emit (.note s!"state:{a.last.toString}") } }
+  | .inject ev => { a with e := { a.e with x := a.e.x.raise ev } }
   | .reset | .destroy => a     -- handled by `apply`
 
 /-- `reset()` and destruction + re-creation end the incarnation: what follows starts from the
